@@ -12,7 +12,8 @@ SPEC = {
         {"name": "c04-purego", "pkg": "./zz_verif/c04", "run": "^TestC04(Transcript|Verdict)$", "configs": _PUREGO, "tiers": ["thorough"],
          "shards": {"thorough": 4}},
         # black-box: reference-driven search for rare signing paths (hint weight > omega, weight == omega, >= 15 rounds)
-        {"name": "c04-rare", "pkg": "./zz_verif/c04", "run": "^TestC04RareBranches$", "shards": {"quick": 4, "thorough": 16}},
+        # and for key seeds in the tail of ExpandS (extra SHAKE block), fed to whole keygen + signing
+        {"name": "c04-rare", "pkg": "./zz_verif/c04", "run": "^TestC04(RareBranches|TailSeeds)$", "shards": {"quick": 4, "thorough": 16}},
         # white-box: sign/internal/dilithium (scalar sweeps, polynomial routines generic and AVX2, T0/T1/Le16 packing)
         {"name": "c04-common", "pkg": "./sign/internal/dilithium", "run": "^TestC04", "whitebox": True, "configs": _CFG,
          "quick_configs": ["default", "noavx2"], "shards": {"quick": 1, "thorough": 16}},
@@ -31,7 +32,8 @@ SPEC = {
             "final hint weight == omega, >= 15 rounds), (b) a strictness probe: a signature made with the real secret key that is valid except for exactly "
             "one rule (||z||_inf == gamma1-beta, swapped / duplicated hint indices, non-zero hint padding, decreasing or oversized switch-over byte, flipped "
             "c~ bit, trailing bytes, truncation) or valid with the extreme norm gamma1-beta-1, (c) a hint encoding that decodes successfully, a sampler input "
-            "(incl. searched inputs with a 23-bit candidate exactly on the rejection boundary q / q-1). Distinct by FNV-64 of (sub-check, seed, message, ctx, "
+            "(incl. inputs found by scanning with the reference's XOF byte counters: a 23-bit candidate exactly on the rejection boundary q / q-1, the (seed, nonce) "
+            "pairs and key seeds xi from the far tail of the rejection count, in particular every ExpandS call that needs a third SHAKE-256 block). Distinct by FNV-64 of (sub-check, seed, message, ctx, "
             "alteration, signature). Enumerated points of the rounding sweeps are counted as evaluations only.",
     "assumptions": COMMON_ASSUME + [
         "zz_verif/ref/mldsa is the oracle: written from FIPS 204 / the round-3.1 specification with int64 arithmetic and x/crypto/sha3, validated in every "
